@@ -98,7 +98,23 @@ func (h *wsHostile) Send(b []byte) error {
 func (h *wsHostile) Barrier() bool { time.Sleep(30 * time.Millisecond); return true }
 func (h *wsHostile) Close()        { h.c.Close() }
 
+// extHostile talks to the target through an ExternalBackend session over an in-process socket pair
+// (the "embedded backend" of the statement): framed like the stream backends.
+type extHostile struct{ c net.Conn }
+
+func (h *extHostile) Send(b []byte) error {
+	if len(b) > 65535 {
+		return nil
+	}
+	_ = h.c.SetWriteDeadline(time.Now().Add(5 * time.Second))
+	_, err := h.c.Write(wire.Frame(b))
+	return err
+}
+func (h *extHostile) Barrier() bool { time.Sleep(30 * time.Millisecond); return true }
+func (h *extHostile) Close()        { h.c.Close() }
+
 type c07Env struct {
+	ext       *netceptor.ExternalBackend
 	m         *mesh.Mesh
 	t, w, v   *netceptor.Netceptor
 	transport string
@@ -129,6 +145,12 @@ func (e *c07Env) open(name string) (hostile, error) {
 			return nil, err
 		}
 		return &udpHostile{c}, nil
+	case "ext":
+		a, b := net.Pipe()
+		// drain what the node writes to us (net.Pipe is unbuffered)
+		go func() { _, _ = io.Copy(io.Discard, b) }()
+		e.ext.NewConnection(netceptor.MessageConnFromNetConn(a), true)
+		return &extHostile{b}, nil
 	case "ws":
 		d := websocket.Dialer{HandshakeTimeout: 5 * time.Second}
 		c, _, err := d.Dial("ws://"+e.addr+"/", nil)
@@ -255,6 +277,15 @@ func c07Child(_ string, args []string) {
 			os.Exit(2)
 		}
 		e.addr = l.LocalAddr().String()
+	case "ext":
+		eb, err := netceptor.NewExternalBackend()
+		if err != nil {
+			os.Exit(2)
+		}
+		if err := e.t.AddBackend(eb); err != nil {
+			os.Exit(2)
+		}
+		e.ext = eb
 	case "ws":
 		l, _ := backends.NewWebsocketListener("127.0.0.1:0", nil, lg, nil, nil)
 		if err := e.t.AddBackend(l); err != nil {
@@ -293,6 +324,10 @@ func c07Child(_ string, args []string) {
 			if th, ok := h.(*tcpHostile); ok {
 				_ = th.c.SetWriteDeadline(time.Now().Add(5 * time.Second))
 				_, _ = th.c.Write(cs.Raw)
+			}
+			if eh, ok := h.(*extHostile); ok {
+				_ = eh.c.SetWriteDeadline(time.Now().Add(5 * time.Second))
+				_, _ = eh.c.Write(cs.Raw)
 			}
 		}
 		for _, m := range cs.Msgs {
@@ -495,7 +530,7 @@ func c07Class(label string) string {
 
 func runC07(tier string, args []string) {
 	run := ev.New("C07", tier, "exploration")
-	run.Rule("systematic single-message set (every length 0-40/255/16K/64K x first-byte class, every type byte, every routing-update and advertisement field x JSON type, body shapes, semantic absurdities, data-header corruptions, rejects; pre- and post-handshake) delivered on fresh sessions to a target node in a child process over memnet and over real TCP/UDP/websocket listeners (+TCP framing abuses); thorough adds 8000 seeded sequences. After each input: ping w->v through the target; after flagged inputs and every 25: a fresh node must join and ping through the target. distinct_nontrivial = distinct (transport, phase, class label) of inputs that reached a decoder")
+	run.Rule("systematic single-message set (every length 0-40/255/16K/64K x first-byte class, every type byte, every routing-update and advertisement field x JSON type, body shapes, semantic absurdities, data-header corruptions, rejects; pre- and post-handshake) delivered on fresh sessions to a target node in a child process over memnet, over real TCP/UDP/websocket listeners and over an ExternalBackend session on a socket pair (+framing abuses on the two framed stream transports); thorough adds 8000 seeded sequences. After each input: ping w->v through the target; after flagged inputs and every 25: a fresh node must join and ping through the target. distinct_nontrivial = distinct (transport, phase, class label) of inputs that reached a decoder")
 	run.Assume("hostile inputs never impersonate the probe nodes and never forge the target's real epoch in a duplicate notice (that is the protocol's own shutdown signal, C11)")
 	work := workDir()
 	cases := genC07(run.Seed, !run.Quick(), c07Target)
@@ -528,7 +563,7 @@ func runC07(tier string, args []string) {
 	}
 	// real transports: a seeded sample (quick: 200 each; thorough: 2000 each) + TCP framing abuses
 	perT := run.Pick(200, 2000)
-	for ti, tr := range []string{"tcp", "udp", "ws"} {
+	for ti, tr := range []string{"tcp", "udp", "ws", "ext"} {
 		ord := []int{}
 		step := len(cases) / perT
 		if step < 1 {
@@ -547,7 +582,7 @@ func runC07(tier string, args []string) {
 				ord = append(ord, c.Idx)
 			}
 		}
-		if tr == "tcp" {
+		if tr == "tcp" || tr == "ext" {
 			for _, c := range raws {
 				ord = append(ord, c.Idx)
 			}
